@@ -90,7 +90,20 @@ func genCase(r *h.Rand, emit func([]string)) {
 			p.ts = append(p.ts, t)
 			ops = append(ops, m.Fmt("csg %s %s %d", p.db, p.rp, t))
 		case k < 7:
-			ops = append(ops, "restart")
+			if r.Chance(0.4) && len(p.ts) > 0 {
+				// precreate the successor of the last group: window around an earlier timestamp
+				t := h.Pick(r, p.ts)
+				from, to := t-r.Range(0, 3)*p.sgd-1, t+r.Range(1, 3)*p.sgd
+				if from > t || to < t { // overflow
+					from, to = m.MinNano, m.MaxNano
+				}
+				if to > m.MaxNano {
+					to = m.MaxNano
+				}
+				ops = append(ops, m.Fmt("pre %d %d", from, to))
+			} else {
+				ops = append(ops, "restart")
+			}
 		case k < 8:
 			// change the shard group duration: later groups are no longer aligned with the existing ones
 			p.sgd = h.Pick(r, durations)
